@@ -264,9 +264,11 @@ func sortJSONObject(input gjson.Result, output []byte) []byte {
 		return true // keep iterating
 	})
 
-	// Using slices.SortFunc here instead of sort.Slice avoids
-	// heap escapes due to reflection.
-	slices.SortFunc(entries, func(a, b entry) int {
+	// Using slices.SortStableFunc here instead of sort.Slice avoids
+	// heap escapes due to reflection. The sort must be stable: members with the same name keep
+	// their order, so that a reader of the sorted bytes sees the same "last occurrence" as a
+	// reader of the bytes as received.
+	slices.SortStableFunc(entries, func(a, b entry) int {
 		return strings.Compare(a.key, b.key)
 	})
 
